@@ -210,6 +210,24 @@ Proof.
   destruct (render_all_plain _ _ _ _ _ _ Hk' E) as (_ & _ & ps & Hps & Ex). exists (snd a), ps. split; [|exact Ex].
   now rewrite (align_styles _ _ _ _ Hk Ea) in Hps.
 Qed.
+(* s is the text written for the layout l: the texts of its elements, one behind the other *)
+Definition text_of (sty : styles) (W : Z) (l : layout) (s : str) : Prop := exists off ps, written sty W off l ps /\ s = concat ps.
+Lemma page_text_of W f l s : f_kind f = FPlain -> render_page W f l = Ok s -> text_of (f_styles f) W l s.
+Proof. exact (page_plain_is_elements W f l s). Qed.
+Lemma Forall2_app_inv_l' {X Y} (R : X -> Y -> Prop) : forall l1 l2 ps, Forall2 R (l1 ++ l2) ps ->
+  exists p1 p2, ps = p1 ++ p2 /\ Forall2 R l1 p1 /\ Forall2 R l2 p2.
+Proof.
+  induction l1 as [|x l1 IH]; intros l2 ps H; [exists [], ps; repeat split; [constructor|exact H]|].
+  inversion H as [|? p ? ps' Hx Hr]; subst. destruct (IH l2 ps' Hr) as (p1 & p2 & -> & H1 & H2).
+  exists (p :: p1), p2. repeat split; [constructor; assumption|exact H2].
+Qed.
+(* the text of a part of the layout is a part of the text *)
+Lemma text_of_section sty W a b c s : text_of sty W (a ++ b ++ c) s -> exists s1 s2 s3, s = s1 ++ s2 ++ s3 /\ text_of sty W b s2.
+Proof.
+  intros (off & ps & Hps & ->). unfold written in Hps.
+  apply Forall2_app_inv_l' in Hps as (p1 & p23 & -> & H1 & H23). apply Forall2_app_inv_l' in H23 as (p2 & p3 & -> & H2 & H3).
+  exists (concat p1), (concat p2), (concat p3). split; [now rewrite !concat_app|]. exists off, p2. split; [exact H2|reflexivity].
+Qed.
 Lemma written_in sty W off l ps x : written sty W off l ps -> In x l ->
   exists raw, elem_text_for sty W off x = Ok raw /\ infix_of (plain_of sty false raw) (concat ps).
 Proof.
@@ -221,14 +239,14 @@ Qed.
 (* ================= D. labels ================= *)
 (* a piece n of a label, behind a part p of the label that leaves no tag candidate pending, is in the text written - on one line
    when it holds no line break *)
-Theorem label_piece_written W f l s ind label text padding aligned p n q :
-  f_kind f = FPlain -> render_page W f l = Ok s -> In (ind, ELab label text padding aligned) l ->
+Theorem label_piece_written sty W l s ind label text padding aligned p n q :
+  text_of sty W l s -> In (ind, ELab label text padding aligned) l ->
   ends_visible label -> label = p ++ n ++ q -> l_cand (scan p) = CText -> n <> [] -> plain n ->
   infix_of n s /\ (no_nl n -> on_line n s).
 Proof.
-  intros Hk H Hin Hv El Hp Hn [Hlt Hb].
+  intros H Hin Hv El Hp Hn [Hlt Hb].
   assert (infix_of n s) as Hi.
-  { destruct (page_plain_is_elements W f l s Hk H) as (off & ps & Hps & ->).
+  { destruct H as (off & ps & Hps & ->).
     destruct (written_in _ _ _ _ _ _ Hps Hin) as (raw & Er & Hi). eapply infix_trans; [|exact Hi].
     unfold elem_text_for in Er. cbn [fst snd elem_label] in Er.
     destruct (lab_raw_shape _ _ _ _ _ _ _ _ _ Er Hv) as (rest & ->). rewrite El, <- !app_assoc, (app_assoc (spaces ind) p).
@@ -237,16 +255,18 @@ Proof.
   split; [exact Hi|]. intros Hnl. now apply infix_on_line.
 Qed.
 
-Corollary label_piece_on_line W f l s ind label text padding aligned p n q :
-  f_kind f = FPlain -> render_page W f l = Ok s -> In (ind, ELab label text padding aligned) l ->
+Corollary label_piece_on_line sty W l s ind label text padding aligned p n q :
+  text_of sty W l s -> In (ind, ELab label text padding aligned) l ->
   ends_visible label -> label = p ++ n ++ q -> l_cand (scan p) = CText -> n <> [] -> plain n -> no_nl n -> on_line n s.
-Proof. intros Hk H Hin Hv El Hp Hn Hpl Hnl. now apply (label_piece_written W f l s ind label text padding aligned p n q). Qed.
+Proof. intros H Hin Hv El Hp Hn Hpl Hnl. now apply (label_piece_written sty W l s ind label text padding aligned p n q). Qed.
 
 (* ---- the labels of the help model ---- *)
 Lemma C1E_visible x : ends_visible (x ++ C1E).
 Proof. apply ends_visible_app. exists [60;47;99;49]%N, 62%N. split; reflexivity. Qed.
 Lemma paren_visible x : ends_visible (x ++ [41%N]).
 Proof. exists x, 41%N. split; reflexivity. Qed.
+Lemma paren_visible_gen x c : is_space c = false -> ends_visible (x ++ [c]).
+Proof. intros H. exists x, c. split; [reflexivity|exact H]. Qed.
 Lemma option_label_visible h : ends_visible (elem_label (render_option h)).
 Proof.
   rewrite render_option_names_lemma. destruct (bit (o_flags (h_o h)) 0).
@@ -311,21 +331,21 @@ Proof.
   unfold wout. cbn [mk l_done l_cur l_cand raw_of plain_segs]. unfold kept. rewrite !(recognised_c1 sty _ _ Hr). unfold esc_of.
   change (ends_with_bsl [LT]) with false. cbn [andb orb negb app]. reflexivity.
 Qed.
-Theorem argument_name_written W f l s ind a :
-  f_kind f = FPlain -> render_page W f l = Ok s -> In (ind, render_argument a) l -> plain (a_name (h_a a)) -> no_nl (a_name (h_a a)) ->
-  on_line (a_name (h_a a) ++ [GT]) s /\ (resolvable (f_styles f) NM_C1 -> on_line (LT :: a_name (h_a a) ++ [GT]) s).
+Theorem argument_name_written sty W l s ind a :
+  text_of sty W l s -> In (ind, render_argument a) l -> plain (a_name (h_a a)) -> no_nl (a_name (h_a a)) ->
+  on_line (a_name (h_a a) ++ [GT]) s /\ (resolvable sty NM_C1 -> on_line (LT :: a_name (h_a a) ++ [GT]) s).
 Proof.
-  intros Hk H Hin Hp Hnl. destruct (argument_label_name a) as [El Hc].
+  intros H Hin Hp Hnl. destruct (argument_label_name a) as [El Hc].
   assert (plain (a_name (h_a a) ++ [GT])) as Hp' by (apply plain_snoc; [discriminate|discriminate|exact Hp]).
   assert (no_nl (a_name (h_a a) ++ [GT])) as Hnl' by (apply no_nl_app; [exact Hnl|constructor; [discriminate|constructor]]).
   split.
   - destruct (render_argument a) as [t|label text padding aligned|] eqn:Ee; try (cbn [elem_label] in El; destruct (a_name (h_a a)); discriminate).
     cbn [elem_label] in El.
-    apply (label_piece_on_line W f l s ind label text padding aligned ARG_OPEN (a_name (h_a a) ++ [GT]) C1E Hk H Hin); auto.
+    apply (label_piece_on_line sty W l s ind label text padding aligned ARG_OPEN (a_name (h_a a) ++ [GT]) C1E H Hin); auto.
     + rewrite El, !app_assoc. apply C1E_visible.
     + destruct (a_name (h_a a)); discriminate.
   - intros Hr. apply infix_on_line; [constructor; [discriminate|exact Hnl']|].
-    destruct (page_plain_is_elements W f l s Hk H) as (off & ps & Hps & ->).
+    destruct H as (off & ps & Hps & ->).
     destruct (written_in _ _ _ _ _ _ Hps Hin) as (raw & Er & Hi). eapply infix_trans; [|exact Hi].
     unfold elem_text_for in Er. cbn [fst snd] in Er.
     destruct (render_argument a) as [t|label text padding aligned|] eqn:Ee; try (cbn [elem_label] in El; destruct (a_name (h_a a)); discriminate).
@@ -344,31 +364,31 @@ Proof.
     + apply Hp'.
 Qed.
 (* an option: both spellings *)
-Theorem option_names_written W f l s ind h :
-  f_kind f = FPlain -> render_page W f l = Ok s -> In (ind, render_option h) l ->
+Theorem option_names_written sty W l s ind h :
+  text_of sty W l s -> In (ind, render_option h) l ->
   (plain (o_long (h_o h)) -> no_nl (o_long (h_o h)) -> on_line (long_form h) s)
   /\ (forall sh, o_short (h_o h) = Some sh -> plain sh -> no_nl sh -> on_line (short_form sh) s).
 Proof.
-  intros Hk H Hin. pose proof (option_label_visible h) as Hv.
+  intros H Hin. pose proof (option_label_visible h) as Hv.
   destruct (render_option h) as [t|label text padding aligned|] eqn:Ee;
     try (exfalso; destruct Hv as (s' & c & E & _); cbn [elem_label] in E; destruct s'; discriminate).
   cbn [elem_label] in Hv. split.
   - intros Hp Hnl. destruct (option_label_long h) as (p & q & El & Hc). rewrite Ee in El. cbn [elem_label] in El.
-    apply (label_piece_on_line W f l s ind label text padding aligned p (long_form h) q Hk H Hin Hv El Hc); [discriminate| |].
+    apply (label_piece_on_line sty W l s ind label text padding aligned p (long_form h) q H Hin Hv El Hc); [discriminate| |].
     + unfold long_form. apply plain_cons; [discriminate|discriminate|]. apply plain_cons; [discriminate|discriminate|exact Hp].
     + unfold long_form. repeat apply no_nl_cons; try discriminate. exact Hnl.
   - intros sh Hs Hp Hnl. destruct (option_label_short h sh Hs) as (p & q & El & Hc). rewrite Ee in El. cbn [elem_label] in El.
-    apply (label_piece_on_line W f l s ind label text padding aligned p (short_form sh) q Hk H Hin Hv El Hc); [discriminate| |].
+    apply (label_piece_on_line sty W l s ind label text padding aligned p (short_form sh) q H Hin Hv El Hc); [discriminate| |].
     + unfold short_form. apply plain_cons; [discriminate|discriminate|exact Hp].
     + unfold short_form. apply no_nl_cons; [discriminate|exact Hnl].
 Qed.
 (* a command of the application page: <c1>name</c1> *)
-Theorem command_label_written W f l s ind name text padding aligned :
-  f_kind f = FPlain -> render_page W f l = Ok s -> In (ind, ELab (C1 ++ name ++ C1E) text padding aligned) l ->
+Theorem command_label_written sty W l s ind name text padding aligned :
+  text_of sty W l s -> In (ind, ELab (C1 ++ name ++ C1E) text padding aligned) l ->
   name <> [] -> plain name -> no_nl name -> on_line name s.
 Proof.
-  intros Hk H Hin Hne Hp Hnl.
-  apply (label_piece_on_line W f l s ind _ text padding aligned C1 name C1E Hk H Hin); auto.
+  intros H Hin Hne Hp Hnl.
+  apply (label_piece_on_line sty W l s ind _ text padding aligned C1 name C1E H Hin); auto.
   rewrite app_assoc. apply C1E_visible.
 Qed.
 
@@ -417,13 +437,13 @@ Proof.
   cbn [fst snd wrap_chunks app]. f_equal. f_equal. exact Hc.
 Qed.
 (* a piece n of a paragraph that fits its line, behind a ">" *)
-Theorem para_piece_on_line W f l s ind t a n b :
-  f_kind f = FPlain -> render_page W f l = Ok s -> In (ind, EPara t) l ->
+Theorem para_piece_on_line sty W l s ind t a n b :
+  text_of sty W l s -> In (ind, EPara t) l ->
   t = a ++ [GT] ++ n ++ b -> spacefree t -> ends_visible t -> (zlen t <= W - 1 - Z.of_nat ind)%Z ->
   n <> [] -> plain n -> no_nl n -> on_line n s.
 Proof.
-  intros Hk H Hin Et Hsf Hv Hfit Hn [Hlt Hb] Hnl. apply infix_on_line; [exact Hnl|].
-  destruct (page_plain_is_elements W f l s Hk H) as (off & ps & Hps & ->).
+  intros H Hin Et Hsf Hv Hfit Hn [Hlt Hb] Hnl. apply infix_on_line; [exact Hnl|].
+  destruct H as (off & ps & Hps & ->).
   destruct (written_in _ _ _ _ _ _ Hps Hin) as (raw & Er & Hi). eapply infix_trans; [|exact Hi].
   unfold elem_text_for in Er. cbn [fst snd] in Er. destruct (para_raw_shape _ _ _ _ _ _ Er) as (lines & Hw & ->).
   rewrite wrap_one_line in Hw; [|rewrite Et; destruct a; discriminate|exact Hsf|exact Hfit]. injection Hw as <-.
@@ -483,13 +503,13 @@ Proof.
     apply filter_In in Hin as [Hin _]. unfold no_lt, no_bsl in *. rewrite Forall_forall in Hlt, Hb. auto. }
   split; apply Forall_forall; intros c Hc; now apply H.
 Qed.
-Theorem para_piece_spaced W f l s ind t a n b :
-  f_kind f = FPlain -> render_page W f l = Ok s -> In (ind, EPara t) l ->
+Theorem para_piece_spaced sty W l s ind t a n b :
+  text_of sty W l s -> In (ind, EPara t) l ->
   t = a ++ [GT] ++ n ++ b -> plain n -> spaced_in n s.
 Proof.
-  intros Hk H Hin Et Hp.
+  intros H Hin Et Hp.
   destruct (filter nsp n) as [|n0 nr] eqn:En. { exists []. split; [exists [], s; reflexivity|now rewrite En]. }
-  destruct (page_plain_is_elements W f l s Hk H) as (off & ps & Hps & ->).
+  destruct H as (off & ps & Hps & ->).
   destruct (written_in _ _ _ _ _ _ Hps Hin) as (raw & Er & Hi).
   unfold elem_text_for in Er. cbn [fst snd] in Er. destruct (para_raw_shape _ _ _ _ _ _ Er) as (lines & Hw & ->).
   set (R := rstrip (join_lines (spaces ind) lines)) in *.
@@ -519,56 +539,144 @@ Definition opt_written (h : hopt) (s : str) : Prop :=
   (plain (o_long (h_o h)) -> no_nl (o_long (h_o h)) -> on_line (long_form h) s)
   /\ (forall sh, o_short (h_o h) = Some sh -> plain sh -> no_nl sh -> on_line (short_form sh) s).
 Definition arg_name_ok (a : harg) : Prop := plain (a_name (h_a a)) /\ no_nl (a_name (h_a a)).
-(* of the name of a sub-command (a paragraph <u>name</u>): the name with white space put in where textwrap broke the paragraph;
-   on one line when the name holds no white space and the paragraph - tags included: textwrap counts them - fits its line *)
+Definition name_ok (n : str) : Prop := n <> [] /\ plain n /\ no_nl n.
+(* of the name of a sub-command under COMMANDS (a paragraph <u>name</u>): the name with white space put in where textwrap broke
+   the paragraph; on one line when the name holds no white space and the paragraph - tags included: textwrap counts them -
+   fits its line *)
 Definition name_written (W : Z) (ind : nat) (n s : str) : Prop :=
   (plain n -> spaced_in n s)
-  /\ (plain n -> no_nl n -> n <> [] -> spacefree n -> (zlen (u_tag n) <= W - 1 - Z.of_nat ind)%Z -> on_line n s).
+  /\ (name_ok n -> spacefree n -> (zlen (u_tag n) <= W - 1 - Z.of_nat ind)%Z -> on_line n s).
 
 Lemma u_tag_shape n : u_tag n = [60;117]%N ++ [GT] ++ n ++ [60;47;117;62]%N.
 Proof. reflexivity. Qed.
-Lemma name_para_written W f l s ind n : f_kind f = FPlain -> render_page W f l = Ok s -> In (ind, EPara (u_tag n)) l ->
-  name_written W ind n s.
+Lemma name_para_written sty W l s ind n : text_of sty W l s -> In (ind, EPara (u_tag n)) l -> name_written W ind n s.
 Proof.
-  intros Hk H Hin. split.
-  - intros Hp. exact (para_piece_spaced W f l s ind (u_tag n) _ n _ Hk H Hin (u_tag_shape n) Hp).
-  - intros Hp Hnl Hne Hsf Hfit.
-    apply (para_piece_on_line W f l s ind (u_tag n) _ n _ Hk H Hin (u_tag_shape n)); auto.
+  intros H Hin. split.
+  - intros Hp. exact (para_piece_spaced sty W l s ind (u_tag n) _ n _ H Hin (u_tag_shape n) Hp).
+  - intros (Hne & Hp & Hnl) Hsf Hfit.
+    apply (para_piece_on_line sty W l s ind (u_tag n) _ n _ H Hin (u_tag_shape n)); auto.
     + rewrite u_tag_shape. repeat (apply Forall_app; split); try exact Hsf; repeat constructor.
     + rewrite u_tag_shape. exists ([60;117]%N ++ [GT] ++ n ++ [60;47;117]%N), 62%N. split; [now rewrite <- !app_assoc|reflexivity].
 Qed.
 
+(* ---- the name of a sub-command in USAGE: the synopsis of the sub-command spells  app cmd ... name  in its LABEL, which is
+   never wrapped ---- *)
+Lemma join_with_snoc sep : forall l z, l <> [] -> join_with sep (l ++ [z]) = join_with sep l ++ sep :: z.
+Proof.
+  induction l as [|x l IH]; intros z Hne; [congruence|]. destruct l as [|y l]; [reflexivity|].
+  change ((x :: y :: l) ++ [z]) with (x :: (y :: l) ++ [z]).
+  change (join_with sep (x :: (y :: l) ++ [z])) with (x ++ sep :: join_with sep ((y :: l) ++ [z])).
+  rewrite IH by discriminate. change (join_with sep (x :: y :: l)) with (x ++ sep :: join_with sep (y :: l)).
+  now rewrite <- app_assoc.
+Qed.
+Lemma synopsis_is_lab sty app_name names opts args prefix lo :
+  synopsis sty app_name names opts args prefix lo =
+  ELab (elem_label (synopsis sty app_name names opts args prefix lo)) (elem_text (synopsis sty app_name names opts args prefix lo)) 1 false.
+Proof. reflexivity. Qed.
+Lemma synopsis_label_last sty app_name names nm opts args prefix lo :
+  exists X Y, elem_label (synopsis sty app_name (names ++ [nm]) opts args prefix lo) = X ++ u_tag nm ++ Y /\ (Y = [] \/ Y = [93%N]).
+Proof.
+  unfold synopsis. cbv zeta. cbn [elem_label]. set (a := u_tag _). rewrite map_app. cbn [map].
+  change (a :: map u_tag names ++ [u_tag nm]) with ((a :: map u_tag names) ++ [u_tag nm]). set (P0 := a :: map u_tag names).
+  assert (P0 <> []) as HP by (subst P0; discriminate). destruct lo.
+  - rewrite removelast_last, last_last, join_with_snoc by exact HP.
+    exists (prefix ++ join_with 32%N P0 ++ [32; 91]%N), [93%N]. split; [now rewrite <- !app_assoc|now right].
+  - rewrite join_with_snoc by exact HP. exists (prefix ++ join_with 32%N P0 ++ [32]%N), []. split; [now rewrite <- !app_assoc, app_nil_r|now left].
+Qed.
+Theorem sub_name_in_usage sty0 W sty app_name ch aliases help subs s sb :
+  text_of sty0 W (command_page sty app_name ch aliases help subs) s ->
+  In sb subs -> sb_enabled sb = true -> sb_anonymous sb = false -> (sb_default sb = true \/ sb_hidden sb = false) ->
+  name_ok (sb_name sb) -> on_line (sb_name sb) s.
+Proof.
+  intros H Hin He Ha Hv (Hne & Hp & Hnl).
+  assert (exists lo, In (sub_fmt ch sb, lo) (usage_entries ch subs)) as (lo & Hu).
+  { destruct (sb_default sb) eqn:Ed.
+    - eexists. exact (usage_lists_defaults ch subs sb Hin He Ed).
+    - destruct Hv as [Hv|Hv]; [discriminate|]. eexists. exact (usage_lists_visible ch subs sb Hin He Ed Hv). }
+  unfold sub_fmt in Hu. rewrite Ha in Hu.
+  destruct (command_page_usage sty app_name ch aliases help subs _ _ _ _ Hu) as (prefix & Hl). rewrite synopsis_is_lab in Hl.
+  destruct (synopsis_label_last sty app_name (chain_names ch) (sb_name sb) (sb_opts sb) (chain_args ch ++ sb_args sb) prefix lo) as (X & Y & El & HY).
+  apply (label_piece_on_line sty0 W _ s 2 _ _ 1 false (X ++ [60;117;62]%N) (sb_name sb) ([60;47;117;62]%N ++ Y) H Hl); auto.
+  - rewrite El. destruct HY as [->| ->].
+    + rewrite app_nil_r. apply ends_visible_app. exists ([60;117;62]%N ++ sb_name sb ++ [60;47;117]%N), 62%N. split; [|reflexivity].
+      unfold u_tag. now rewrite <- !app_assoc.
+    + rewrite !app_assoc. apply paren_visible_gen. reflexivity.
+  - rewrite El. unfold u_tag. now rewrite <- !app_assoc.
+  - change [60;117;62]%N with ([60;117]%N ++ [GT]). rewrite app_assoc. apply cand_snoc_gt.
+Qed.
+
+(* ---- the command page ---- *)
+Theorem command_page_text_complete sty0 W sty app_name ch aliases help subs s :
+  text_of sty0 W (command_page sty app_name ch aliases help subs) s ->
+  (forall a, In a (chain_args ch) -> arg_name_ok a -> arg_written sty0 a s)
+  /\ (forall h, In h (own_opts ch) \/ In h (base_opts ch) -> opt_written h s)
+  /\ (forall sb, In sb subs -> sb_enabled sb = true -> sb_anonymous sb = false -> sb_hidden sb = false ->
+        (name_ok (sb_name sb) -> on_line (sb_name sb) s)
+        /\ (forall a, In a (sb_args sb) -> arg_name_ok a -> arg_written sty0 a s)
+        /\ (forall h, In h (sb_opts sb) -> opt_written h s)).
+Proof.
+  intros H. destruct (command_page_complete_lemma sty app_name ch aliases help subs) as (C1 & C2 & C3 & C4).
+  split; [|split].
+  - intros a Ha [Hp Hnl]. exact (argument_name_written sty0 W _ s 2 a H (C1 a Ha) Hp Hnl).
+  - intros h [Hh|Hh]; [exact (option_names_written sty0 W _ s 2 h H (C2 h Hh))|exact (option_names_written sty0 W _ s 2 h H (C3 h Hh))].
+  - intros sb Hin He Ha Hh. destruct (C4 sb Hin He Ha Hh) as (_ & D1 & D2 & D3). split; [|split].
+    + intros Hn. exact (sub_name_in_usage sty0 W sty app_name ch aliases help subs s sb H Hin He Ha (or_intror Hh) Hn).
+    + intros a Hia [Hp Hnl]. exact (argument_name_written sty0 W _ s 4 a H (D2 a Hia) Hp Hnl).
+    + intros h Hih. exact (option_names_written sty0 W _ s 4 h H (D3 h Hih)).
+Qed.
+(* the COMMANDS section: a piece of the page that holds, for every enabled, named, non-hidden sub-command, its name (broken only
+   where textwrap breaks it), its arguments and its options *)
+Definition section_complete (sty0 : styles) (W : Z) (subs : list sub) (s2 : str) : Prop :=
+  forall sb, In sb subs -> sb_enabled sb = true -> sb_anonymous sb = false -> sb_hidden sb = false ->
+    name_written W 2 (sb_name sb) s2
+    /\ (forall a, In a (sb_args sb) -> arg_name_ok a -> arg_written sty0 a s2)
+    /\ (forall h, In h (sb_opts sb) -> opt_written h s2).
+Theorem commands_section_text sty0 W subs s2 : text_of sty0 W (commands_section subs) s2 -> section_complete sty0 W subs s2.
+Proof.
+  intros H2 sb Hin He Ha Hh.
+  assert (visible sb = true) as Hv by (unfold visible; now rewrite He, Ha, Hh).
+  pose proof (commands_section_lists subs sb Hin Hv) as Hincl. destruct (sub_block_lists sb) as (B1 & B2 & B3 & _).
+  split; [|split].
+  - exact (name_para_written sty0 W _ s2 2 (sb_name sb) H2 (Hincl _ B1)).
+  - intros a Hia [Hp Hnl]. exact (argument_name_written sty0 W _ s2 4 a H2 (Hincl _ (B2 a Hia)) Hp Hnl).
+  - intros h Hih. exact (option_names_written sty0 W _ s2 4 h H2 (Hincl _ (B3 h Hih))).
+Qed.
+Theorem commands_section_text_complete sty0 W sty app_name ch aliases help subs s :
+  text_of sty0 W (command_page sty app_name ch aliases help subs) s ->
+  exists s1 s2 s3, s = s1 ++ s2 ++ s3 /\ text_of sty0 W (commands_section subs) s2 /\ section_complete sty0 W subs s2.
+Proof.
+  intros H. rewrite command_page_decomposes in H. destruct (text_of_section _ _ _ _ _ _ H) as (s1 & s2 & s3 & E & H2).
+  exists s1, s2, s3. split; [exact E|]. split; [exact H2|]. now apply commands_section_text.
+Qed.
 Theorem command_page_bytes_complete_lemma W f sty app_name ch aliases help subs s :
   f_kind f = FPlain -> render_page W f (command_page sty app_name ch aliases help subs) = Ok s ->
   (forall a, In a (chain_args ch) -> arg_name_ok a -> arg_written (f_styles f) a s)
   /\ (forall h, In h (own_opts ch) \/ In h (base_opts ch) -> opt_written h s)
   /\ (forall sb, In sb subs -> sb_enabled sb = true -> sb_anonymous sb = false -> sb_hidden sb = false ->
-        name_written W 2 (sb_name sb) s
+        (name_ok (sb_name sb) -> on_line (sb_name sb) s)
         /\ (forall a, In a (sb_args sb) -> arg_name_ok a -> arg_written (f_styles f) a s)
         /\ (forall h, In h (sb_opts sb) -> opt_written h s)).
-Proof.
-  intros Hk H. destruct (command_page_complete_lemma sty app_name ch aliases help subs) as (C1 & C2 & C3 & C4).
-  split; [|split].
-  - intros a Ha [Hp Hnl]. exact (argument_name_written W f _ s 2 a Hk H (C1 a Ha) Hp Hnl).
-  - intros h [Hh|Hh]; [exact (option_names_written W f _ s 2 h Hk H (C2 h Hh))|exact (option_names_written W f _ s 2 h Hk H (C3 h Hh))].
-  - intros sb Hin He Ha Hh. destruct (C4 sb Hin He Ha Hh) as (_ & D1 & D2 & D3). split; [|split].
-    + exact (name_para_written W f _ s 2 (sb_name sb) Hk H D1).
-    + intros a Hia [Hp Hnl]. exact (argument_name_written W f _ s 4 a Hk H (D2 a Hia) Hp Hnl).
-    + intros h Hih. exact (option_names_written W f _ s 4 h Hk H (D3 h Hih)).
-Qed.
+Proof. intros Hk H. exact (command_page_text_complete _ W sty app_name ch aliases help subs s (page_text_of W f _ s Hk H)). Qed.
+Theorem commands_section_bytes_complete_lemma W f sty app_name ch aliases help subs s :
+  f_kind f = FPlain -> render_page W f (command_page sty app_name ch aliases help subs) = Ok s ->
+  exists s1 s2 s3, s = s1 ++ s2 ++ s3 /\ text_of (f_styles f) W (commands_section subs) s2 /\ section_complete (f_styles f) W subs s2.
+Proof. intros Hk H. exact (commands_section_text_complete _ W sty app_name ch aliases help subs s (page_text_of W f _ s Hk H)). Qed.
+
+(* ---- the application page ---- *)
 Theorem application_page_bytes_complete_lemma W f sty app_name display version gopts cmds help s :
   f_kind f = FPlain -> render_page W f (application_page sty app_name display version gopts cmds help) = Ok s ->
   (forall h, In h gopts -> opt_written h s)
   /\ arg_written (f_styles f) the_command_arg s /\ arg_written (f_styles f) the_arg_arg s
   /\ (forall c, In c cmds -> ac_enabled c && negb (ac_anonymous c) && negb (ac_hidden c) = true ->
-        ac_name c <> [] -> plain (ac_name c) -> no_nl (ac_name c) -> on_line (ac_name c) s).
+        name_ok (ac_name c) -> on_line (ac_name c) s).
 Proof.
-  intros Hk H. destruct (application_page_complete_lemma sty app_name display version gopts cmds help) as (C1 & C2 & C3 & _ & C5).
+  intros Hk H0. pose proof (page_text_of W f _ s Hk H0) as H.
+  destruct (application_page_complete_lemma sty app_name display version gopts cmds help) as (C1 & C2 & C3 & _ & C5).
   split; [|split; [|split]].
-  - intros h Hh. exact (option_names_written W f _ s 2 h Hk H (C1 h Hh)).
-  - apply (argument_name_written W f _ s 2 the_command_arg Hk H C2); [split|]; repeat constructor; discriminate.
-  - apply (argument_name_written W f _ s 2 the_arg_arg Hk H C3); [split|]; repeat constructor; discriminate.
-  - intros c Hc Hv Hne Hp Hnl. exact (command_label_written W f _ s 2 (ac_name c) (ac_desc c) 2 true Hk H (C5 c Hc Hv) Hne Hp Hnl).
+  - intros h Hh. exact (option_names_written _ W _ s 2 h H (C1 h Hh)).
+  - apply (argument_name_written _ W _ s 2 the_command_arg H C2); [split|]; repeat constructor; discriminate.
+  - apply (argument_name_written _ W _ s 2 the_arg_arg H C3); [split|]; repeat constructor; discriminate.
+  - intros c Hc Hv (Hne & Hp & Hnl). exact (command_label_written _ W _ s 2 (ac_name c) (ac_desc c) 2 true H (C5 c Hc Hv) Hne Hp Hnl).
 Qed.
 
 (* ---- through the ANSI formatter: the same of the visible text (SGR sequences removed), for layouts without ESC and backslash ---- *)
@@ -579,7 +687,7 @@ Theorem command_page_bytes_complete_ansi_lemma W f sty app_name ch aliases help 
   (forall a, In a (chain_args ch) -> arg_name_ok a -> arg_written (f_styles f) a (strip_sgr s))
   /\ (forall h, In h (own_opts ch) \/ In h (base_opts ch) -> opt_written h (strip_sgr s))
   /\ (forall sb, In sb subs -> sb_enabled sb = true -> sb_anonymous sb = false -> sb_hidden sb = false ->
-        name_written W 2 (sb_name sb) (strip_sgr s)
+        (name_ok (sb_name sb) -> on_line (sb_name sb) (strip_sgr s))
         /\ (forall a, In a (sb_args sb) -> arg_name_ok a -> arg_written (f_styles f) a (strip_sgr s))
         /\ (forall h, In h (sb_opts sb) -> opt_written h (strip_sgr s))).
 Proof.
@@ -592,7 +700,7 @@ Theorem application_page_bytes_complete_ansi_lemma W f sty app_name display vers
   (forall h, In h gopts -> opt_written h (strip_sgr s))
   /\ arg_written (f_styles f) the_command_arg (strip_sgr s) /\ arg_written (f_styles f) the_arg_arg (strip_sgr s)
   /\ (forall c, In c cmds -> ac_enabled c && negb (ac_anonymous c) && negb (ac_hidden c) = true ->
-        ac_name c <> [] -> plain (ac_name c) -> no_nl (ac_name c) -> on_line (ac_name c) (strip_sgr s)).
+        name_ok (ac_name c) -> on_line (ac_name c) (strip_sgr s)).
 Proof.
   intros Hk Hg H. apply (ansi_page_visible_lemma W f _ s Hk Hg) in H.
   exact (application_page_bytes_complete_lemma W (as_plain f) sty app_name display version gopts cmds help (strip_sgr s) (as_plain_kind f) H).
